@@ -316,3 +316,13 @@ def publish_newest(ctx):
     from . import c06, c04
     c06.publish_guard(ctx)
     c04.orientation(ctx)
+
+
+@rule('C16', 'rekey-and-recaps-always-draw', configs=('default', 'p256'))
+def rekey_and_recaps_always_draw(ctx):
+    """'Every rekey publishes a public value never published before' / 'no two encapsulations share a secret': rekey prepends a
+    freshly drawn secret for every requested right whatever its activation flag (the flag is only copied: C06.flag-provenance),
+    and recaps returns what encaps produced — never its input (C18.wiring)."""
+    from . import c06, c18
+    c06.flag_provenance(ctx)
+    c18.wiring(ctx)
